@@ -44,7 +44,7 @@ type Family struct {
 	// Extra: additional scenarios of the property that are not wire items (enumerators over a component); they come after the items
 	ExtraCount  func(tier string) int
 	ExtraRun    func(tier string, idx int, r *core.ScnResult)
-	ExtraReplay func(scn json.RawMessage) (string, bool, bool) // (report, ok, handled)
+	ExtraReplay func(scn json.RawMessage, choices []int) (string, bool, bool) // (report, ok, handled)
 
 	mu    sync.Mutex
 	cache map[string][]Item
@@ -249,7 +249,7 @@ func (f *Family) Run(tier string, idx int, r *core.ScnResult) {
 
 func (f *Family) Replay(scn json.RawMessage, choices []int) (string, bool) {
 	if f.ExtraReplay != nil {
-		if s, ok, handled := f.ExtraReplay(scn); handled {
+		if s, ok, handled := f.ExtraReplay(scn, choices); handled {
 			return s, ok
 		}
 	}
